@@ -19,10 +19,10 @@ using namespace iora::network;
 namespace
 {
 enum Mut { M_NONE, M_COMPRESS_NEVER, M_COMPRESS_COIN, M_TRUNCATE, M_FLIP, M_PTR_LOOP, M_PTR_SELF, M_PTR_OUT_OF_RANGE, M_PTR_FORWARD, M_COUNT_TOO_BIG, M_LABEL_TOO_LONG, M_RDLEN_TOO_BIG, M_TC_THEN_TCP, M_SILENT,
-           M_DUPLICATE, M_NXDOMAIN, M_N };
+           M_DUPLICATE, M_NXDOMAIN, M_WRONG_QUESTION, M_N };
 const char* mutName[] = {"well-formed", "well-formed, no compression", "well-formed, compression drawn per name", "truncated", "byte flipped", "compression pointer loop", "pointer to itself",
                          "pointer beyond the message", "pointer forward into RDATA", "answer count exceeding the content", "label longer than 63", "RDLENGTH beyond the message", "TC set on UDP, full answer on TCP",
-                         "silence", "answer sent twice", "NXDOMAIN with SOA"};
+                         "silence", "answer sent twice", "NXDOMAIN with SOA", "answer to another question under the pending ID"};
 struct QPlan
 {
   std::string name;
@@ -183,6 +183,21 @@ extern "C" void harness_run()
       return r.encode();
     }
     if (q->mut == M_SILENT) return std::string();
+    if (q->mut == M_WRONG_QUESTION)
+    {
+      // a stale duplicate of another exchange / a forged datagram: right ID, well-formed, but about another name
+      r.questions[0].name = "other-" + r.questions[0].name;
+      r.answers.clear();
+      dnsw::Rec spoof;
+      spoof.name = r.questions[0].name;
+      spoof.type = dnsw::T_A;
+      spoof.ttl = 3600;
+      spoof.addr = "6.6.6.6";
+      r.answers.push_back(spoof);
+      r.authority.clear();
+      r.additional.clear();
+      return r.encode();
+    }
     if (q->mut == M_TC_THEN_TCP && !tcp)
     {
       r.tc = true;
@@ -305,7 +320,10 @@ extern "C" void harness_run()
     if (!q.got && !q.threw) sim::fail("harness", "query %s neither returned nor threw", q.name.c_str());
     if (q.elapsedNs > boundNs + sim::stalled_ns())
       sim::fail("c19-not-prompt", "query %s (%s) took %.2f s although timeout, TCP timeout and retry policy allow at most %.2f s", q.name.c_str(), mutName[q.mut], q.elapsedNs / 1e9, boundNs / 1e9);
-    bool mustError = q.mut == M_PTR_LOOP || q.mut == M_PTR_SELF || q.mut == M_PTR_OUT_OF_RANGE || q.mut == M_SILENT || q.mut == M_NXDOMAIN;
+    if (q.mut == M_WRONG_QUESTION && q.got)
+      sim::fail("c19-wrong-question-accepted", "query %s was completed with a response whose question section names another domain (%zu A records, first %s)", q.name.c_str(), q.res.a_records.size(),
+                q.res.a_records.empty() ? "-" : q.res.a_records[0].address.c_str());
+    bool mustError = q.mut == M_PTR_LOOP || q.mut == M_PTR_SELF || q.mut == M_PTR_OUT_OF_RANGE || q.mut == M_SILENT || q.mut == M_NXDOMAIN || q.mut == M_WRONG_QUESTION;
     if (mustError)
     {
       if (q.got) sim::fail("c19-malformed-accepted", "query %s answered with a response carrying a %s was returned as a result (%zu A records, %zu answers)", q.name.c_str(), mutName[q.mut], q.res.a_records.size(), q.res.answers.size());
